@@ -5,6 +5,7 @@ import DimodProofs.LpLexer
 import DimodProofs.LpNum
 import DimodProofs.LpDec
 import DimodProofs.LpClosed
+import DimodProofs.LpReader
 
 /-! # C12 — LP text round trip preserves the constrained model or is refused
 
@@ -194,6 +195,107 @@ example : validLabel (.str "Subject") = false ∧ validLabel (.str "such") = fal
 example : Dec60 (3 / 8) := ⟨3, by decide, by decide +kernel⟩
 
 example : validLabel (.str "x1") = true ∧ validLabel (.str "1x") = false ∧ validLabel (.str "a b") = false := by
+  decide +kernel
+
+/-! ## round 7 — the C++ reader as coded (`DimodModel/LpReader.lean`, namespace `LpCpp`)
+
+`LpCpp.loads` mirrors `extern/filereaderlp/reader.cpp` (character-level tokenizer with `strtod` as the correctly rounded
+binary64 value, 3-token look-ahead `processtokens`, `splittokens`, the section processors in the source's order) composed
+with `model_to_cqm` / `cyread_lp_file`; its keyword tables, identifier terminators and single-character switch are
+regenerated from the C++ source on every run (`Generated/LpKeywords.lean`).  The harness drives it (`lpread`) against
+`dimod.lp.loads` on writer output, near misses of writer output, hand-style LP texts and their near misses. -/
+
+open LpCpp in
+/-- **no valid label is a word of the real reader's grammar** — `To` included: over the keyword tables of `reader.cpp` /
+    `def.hpp` and the label tables of `dimod/lp.py` (both regenerated from the source), a label `_validate_label`
+    accepts is not a section keyword, two such labels following each other (`Binary` / `General` sections) do not join
+    into a two-word keyword (`subject to`, `such that`: the layout of D59) nor, around a hyphen, into `semi-continuous`,
+    and none is read as `free` or as an infinity.  This is the reader-side statement `valid_label_not_grammar_word`
+    makes for the specification grammar, without its `To` exception. -/
+theorem valid_labels_form_no_reader_keyword (s t : String)
+    (hs : validLabel (.str s) = true) (ht : validLabel (.str t) = true) :
+    parseKw (lowerAscii s) = none ∧
+    parseKw (lowerAscii s ++ " " ++ lowerAscii t) = none ∧
+    parseKw (lowerAscii s ++ "-" ++ lowerAscii t) = none ∧
+    Generated.LpKeywords.freeWords.contains (lowerAscii s) = false ∧
+    Generated.LpKeywords.infWords.contains (lowerAscii s) = false := by
+  obtain ⟨hsv, hsr⟩ := valid_parts s hs
+  refine ⟨?_, join_no_keyword s t hs ht ' ' (Or.inl rfl), join_no_keyword s t hs ht '-' (Or.inr rfl), ?_, ?_⟩
+  · apply parseKw_none
+    intro p hp he
+    rcases keyword_table_single p hp with h | h | h
+    · rw [he, lowerAscii_eq_lowerStr, hsr] at h; cases h
+    · rw [he] at h; exact lower_no_sep s hsv ' ' (Or.inl rfl) h
+    · rw [he] at h; exact lower_no_sep s hsv '-' (Or.inr rfl) h
+  · cases hc : Generated.LpKeywords.freeWords.contains (lowerAscii s) with
+    | false => rfl
+    | true =>
+      have := free_inf_table (lowerAscii s) (List.mem_append_left _ (List.contains_iff_mem.mp hc))
+      rw [lowerAscii_eq_lowerStr, hsr] at this; cases this
+  · cases hc : Generated.LpKeywords.infWords.contains (lowerAscii s) with
+    | false => rfl
+    | true =>
+      have := free_inf_table (lowerAscii s) (List.mem_append_right _ (List.contains_iff_mem.mp hc))
+      rw [lowerAscii_eq_lowerStr, hsr] at this; cases this
+
+/-- the label `To` meets the hypothesis of `valid_labels_form_no_reader_keyword` on either side -/
+example : validLabel (.str "To") = true ∧ validLabel (.str "that") = true ∧ validLabel (.str "continuous") = true := by
+  decide +kernel
+
+/-- **refusals of the reader, explicit**: each of these texts (no `End`, tokens after `End`, `- [`, `constant [`, an
+    objective bracket without `/ 2`, `/ 2` in a constraint, another power than 2, strict comparisons, `=<`, a constant
+    on the left of a constraint, a ranged constraint, two constraints with one name, `0 :`, semi-continuous variables,
+    a SOS type other than S1/S2, a section kind opened twice, malformed bounds, a number in the Binary section, two
+    objective sections, a missing right-hand side) is refused by the reader model; the harness checks on every run
+    that `dimod.lp.loads` raises on the same list. -/
+theorem cpp_reader_refuses_malformed : ∀ t ∈ LpCpp.malformedTexts, LpCpp.loads t = .error .refused := by
+  decide +kernel
+
+/-- `model_to_cqm` refuses semi-continuous and semi-integer variables whatever their bounds -/
+theorem cpp_reader_refuses_semi (v : LpCpp.CVar) (h : v.type = .semicont ∨ v.type = .semiint) :
+    LpCpp.toVar v = .error .refused := by
+  rcases h with h | h <;> simp [LpCpp.toVar, h]
+
+/-- **closed round trip through the C++ reader model, evaluated** (`_partial`: eight concrete models, not every CQM):
+    for eight models of `LpCpp.family` (BINARY / INTEGER / REAL variables, one of them called `To`, a constraint called
+    `To`, default, fractional, negative and extreme bounds, zero coefficients, squares, 7- and 16-digit and
+    10-binary-place numbers, offsets folded into right-hand sides, the three senses) the text `Lp.dumps` writes is read
+    by `LpCpp.loads` — characters → raw tokens → processed tokens → sections → `model_to_cqm` — as exactly `normCqm m`,
+    the model `lp_roundtrip_text_closed` proves for the specification reader.  For all other CQMs the equation
+    `LpCpp.loads (Lp.dumps m) = normCqm m` is established by the correspondence run only (`lpread` on every writer output
+    of the harness).  Two models per theorem for elaboration time. -/
+theorem cpp_reader_roundtrip_family_a_partial :
+    ∀ m ∈ LpCpp.familyPick 0, LpCpp.numsDouble m = true ∧ (Lp.dumps m).toOption.isSome = true ∧ LpCpp.roundTripOK m = true := by
+  decide +kernel
+
+theorem cpp_reader_roundtrip_family_b_partial :
+    ∀ m ∈ LpCpp.familyPick 1, LpCpp.numsDouble m = true ∧ (Lp.dumps m).toOption.isSome = true ∧ LpCpp.roundTripOK m = true := by
+  decide +kernel
+
+theorem cpp_reader_roundtrip_family_c_partial :
+    ∀ m ∈ LpCpp.familyPick 2, LpCpp.numsDouble m = true ∧ (Lp.dumps m).toOption.isSome = true ∧ LpCpp.roundTripOK m = true := by
+  decide +kernel
+
+theorem cpp_reader_roundtrip_family_d_partial :
+    ∀ m ∈ LpCpp.familyPick 3, LpCpp.numsDouble m = true ∧ (Lp.dumps m).toOption.isSome = true ∧ LpCpp.roundTripOK m = true := by
+  decide +kernel
+
+/-- the picks are not vacuous: two models each -/
+example : (List.range 4).map (fun i => (LpCpp.familyPick i).length) = [2, 2, 2, 2] := by decide +kernel
+
+/-- binary64 rounding as `strtod` does it: ties to even, subnormals, overflow, and fixed points -/
+example :
+    LpCpp.roundDouble (1 / 10) = .fin (3602879701896397 / 36028797018963968) ∧
+    LpCpp.roundDouble 9007199254740993 = .fin 9007199254740992 ∧
+    LpCpp.roundDouble (3 / 8) = .fin (3 / 8) ∧ LpCpp.isDouble realMax = true ∧ LpCpp.isDouble intMax = true := by
+  decide +kernel
+
+/-- a hand-style text: aliases, `maximize`, omitted coefficients, `x ^ 2`, `free`, `-inf`, comments -/
+example :
+    LpCpp.loads "MAX\n obj: 2 x - y + [ 4 x * y + 2 y ^ 2 ] / 2 + 3 \\ note\nst\n c1: x + y >= 1\nBound\n x free\n -inf <= y <= 7\nGenerals\n y\nEND"
+      = .ok ⟨[⟨.str "x", .real, -realMax, realMax⟩, ⟨.str "y", .integer, -intMax, 7⟩],
+             ⟨[(.str "x", -2), (.str "y", 1)], [(.str "x", .str "y", -2), (.str "y", .str "y", -1)], -3⟩,
+             [⟨.str "c1", ⟨[(.str "x", 1), (.str "y", 1)], [], 0⟩, .ge, 1, false⟩]⟩ := by
   decide +kernel
 
 end C12
